@@ -3,10 +3,10 @@ CONSTANTS
   Tier = "mid"
   CyclesFromEveryNode = TRUE
   RefDepthChecked = TRUE
-  ExitLinked = TRUE
-  StopAfterAnswer = FALSE
-  ResumeAllEdges = FALSE
+  ExitLinked = FALSE
+  StopAfterAnswer = TRUE
+  ResumeAllEdges = TRUE
   StepCap = 600
-INIT GInit
-NEXT GNext
+SPECIFICATION Spec
 CHECK_DEADLOCK FALSE
+INVARIANT FollowsGraph
